@@ -27,7 +27,7 @@ type edit struct {
 
 func main() {
 	dir := flag.String("dir", "", "scratch tree")
-	mode := flag.String("mode", "locals", "locals|funcs|reorder|swapeq|lencmp|logparams")
+	mode := flag.String("mode", "locals", "locals|funcs|types|globals|reorder|swapeq|lencmp|logparams|idxloop|negif")
 	flag.Parse()
 	cfg := &packages.Config{Mode: packages.LoadSyntax, Dir: *dir, Tests: false}
 	pkgs, err := packages.Load(cfg, "./...")
@@ -70,7 +70,7 @@ func main() {
 			tf := p.Fset.File(f.Pos())
 			var edits []edit
 			switch *mode {
-			case "locals", "funcs":
+			case "locals", "funcs", "types", "globals":
 				ast.Inspect(f, func(n ast.Node) bool {
 					id, ok := n.(*ast.Ident)
 					if !ok || id.Name == "_" {
@@ -88,6 +88,17 @@ func main() {
 					case *types.Var:
 						if *mode == "locals" && !o.IsField() && o.Parent() != nil && o.Parent() != p.Types.Scope() && !o.Embedded() {
 							suffix = "Q"
+						}
+						if *mode == "globals" && !o.IsField() && !o.Exported() && o.Parent() == p.Types.Scope() {
+							suffix = "Gl"
+						}
+					case *types.TypeName:
+						if *mode == "types" && !o.Exported() && o.Parent() == p.Types.Scope() {
+							suffix = "Ty"
+						}
+					case *types.Const:
+						if *mode == "globals" && !o.Exported() && o.Parent() == p.Types.Scope() {
+							suffix = "Gl"
 						}
 					case *types.Func:
 						if *mode == "funcs" && !o.Exported() && o.Name() != "init" && o.Name() != "main" {
@@ -207,6 +218,71 @@ func main() {
 					off := tf.Offset(f.Name.End())
 					edits = append(edits, edit{off, off, "\n\nimport \"fmt\"\n"})
 				}
+			case "idxloop":
+				// for k, v := range xs {  ->  for k := 0; k < len(xs); k++ { v := xs[k]   (slices named by an identifier or selector)
+				cnt := 0
+				ast.Inspect(f, func(n ast.Node) bool {
+					rs, ok := n.(*ast.RangeStmt)
+					if !ok || rs.Tok != token.DEFINE {
+						return true
+					}
+					tv, ok := p.TypesInfo.Types[rs.X]
+					if !ok {
+						return true
+					}
+					if _, isSlice := tv.Type.Underlying().(*types.Slice); !isSlice {
+						return true
+					}
+					switch rs.X.(type) {
+					case *ast.Ident, *ast.SelectorExpr:
+					default:
+						return true
+					}
+					// the value variable must not be redefined at the top level of the body (it would no longer shadow)
+					if id, ok := rs.Value.(*ast.Ident); ok {
+						for _, st := range rs.Body.List {
+							if as, ok := st.(*ast.AssignStmt); ok && as.Tok == token.DEFINE {
+								for _, l := range as.Lhs {
+									if li, ok := l.(*ast.Ident); ok && li.Name == id.Name {
+										return true
+									}
+								}
+							}
+						}
+					}
+					xsrc := string(src[tf.Offset(rs.X.Pos()):tf.Offset(rs.X.End())])
+					key := ""
+					if id, ok := rs.Key.(*ast.Ident); ok && id.Name != "_" {
+						key = id.Name
+					}
+					if key == "" {
+						cnt++
+						key = fmt.Sprintf("idx%dQ", cnt)
+					}
+					hdr := "for " + key + " := 0; " + key + " < len(" + xsrc + "); " + key + "++ {"
+					if id, ok := rs.Value.(*ast.Ident); ok && id.Name != "_" {
+						hdr += "\n" + id.Name + " := " + xsrc + "[" + key + "]"
+					}
+					edits = append(edits, edit{tf.Offset(rs.For), tf.Offset(rs.Body.Lbrace) + 1, hdr})
+					return true
+				})
+			case "negif":
+				// if c { A } else { B }  ->  if !(c) { B } else { A }
+				ast.Inspect(f, func(n ast.Node) bool {
+					is, ok := n.(*ast.IfStmt)
+					if !ok || is.Init != nil || is.Else == nil {
+						return true
+					}
+					eb, ok := is.Else.(*ast.BlockStmt)
+					if !ok {
+						return true
+					}
+					co, ce := tf.Offset(is.Cond.Pos()), tf.Offset(is.Cond.End())
+					bo, be := tf.Offset(is.Body.Lbrace), tf.Offset(is.Body.Rbrace)+1
+					eo, ee := tf.Offset(eb.Lbrace), tf.Offset(eb.Rbrace)+1
+					edits = append(edits, edit{co, ce, "!(" + string(src[co:ce]) + ")"}, edit{bo, be, string(src[eo:ee])}, edit{eo, ee, string(src[bo:be])})
+					return false
+				})
 			case "reorder":
 				var funcs []edit
 				for _, d := range f.Decls {
